@@ -121,7 +121,8 @@ def invariants(root, label, res, case, *, shape, expect_deferred_alias=None):
                 if not ue.ok or not (_eq(ue.val, d) or _eq(ue.val, ud)):
                     res.violation(f"C09/I8-deferred-denotes/{shape}/unwrapped-side", f"deferred node {n!r}: its unwrapped reference resolves to {ue!r}, the node denotes {d!r} ({label})", case)
             # I7: a revisit - its denoted type is the (un-deferred) type of another node
-            if not any(j != i and not m.cyclic and (_eq(m.type, d) or _eq(m.unwrapped, d)) for j, m in enumerate(nodes)):
+            du = n.unwrapped if type(n.unwrapped) is not typing.ForwardRef else d  # a qualifier / alias label revisits what it wraps
+            if not any(j != i and not m.cyclic and (_eq(m.type, d) or _eq(m.unwrapped, d) or _eq(m.type, du) or _eq(m.unwrapped, du)) for j, m in enumerate(nodes)):
                 res.violation(f"C09/I7-flagged-is-revisit/{shape}", f"node {n!r} is flagged cyclic but denotes {d!r}, which is no other node of static_order({label})", case)
             continue
         if type(n.unwrapped) is typing.ForwardRef:
@@ -182,6 +183,8 @@ def forms(ns, modname, expr, root, res, case, shape, base_nodes):
         variants.append(("forwardref-module", lambda: graph.static_order(refs.forwardref(root.__name__, module=modname))))
     variants.append(("newtype", lambda: graph.static_order(typing.NewType("RootNT", root))))
     variants.append(("value-alias", lambda: graph.static_order(typing.TypeAliasType("RootAlias", root))))
+    variants.append(("newtype-of-alias", lambda: graph.static_order(typing.NewType("RootNA", typing.TypeAliasType("RootA2", root)))))
+    variants.append(("alias-of-newtype", lambda: graph.static_order(typing.TypeAliasType("RootAN", typing.NewType("RootN2", root)))))
     variants.append(("memoised", lambda: graph.static_order(root)))
     for name, f in variants:
         o = timed(LIMIT, f)
@@ -295,6 +298,25 @@ class SharesG:
     b: Link
     c: list[Link]
     d: GNode
+@dataclasses.dataclass
+class Plain2:
+    v: int = 0
+@dataclasses.dataclass
+class SharedViaQualifier:
+    a: Plain2
+    b: typing.Final[Plain2] = None
+    c: list[Plain2] = dataclasses.field(default_factory=list)
+@dataclasses.dataclass
+class CycViaFinal:
+    v: int = 0
+    nxt: typing.Final[typing.Optional["CycViaFinal"]] = None
+Item9 = Plain2
+Items9 = typing.TypeAliasType("Items9", list[Plain2])
+Basket9 = typing.NewType("Basket9", Items9)
+@dataclasses.dataclass
+class HasBasket:
+    b: Basket9
+    n: int = 0
 class HasLen(typing.Protocol):
     def __len__(self) -> int: ...
 @dataclasses.dataclass
@@ -319,7 +341,7 @@ def run_special(res):
     ns = prelude.mkmod("tlg_c09_special", SPECIAL).__dict__
     res.programs += 1
     case = {"kind": "special"}
-    for nm in ("Outer.Inner", "UsesNested", "HasAlias", "Wrapped", "RecAlias", "StrAlias", "Link", "GNode", "SharesG", "ProtoNode"):
+    for nm in ("Outer.Inner", "UsesNested", "HasAlias", "Wrapped", "RecAlias", "StrAlias", "Link", "GNode", "SharesG", "ProtoNode", "SharedViaQualifier", "CycViaFinal", "HasBasket"):
         root = eval(nm, ns)  # noqa: S307
         for form in ("cls", "list", "dict"):
             r = {"cls": root, "list": list[root], "dict": dict[str, root]}[form]
@@ -339,7 +361,22 @@ def run_special(res):
         items = [n for n in nodes if isinstance(n.type, type) and n.type.__name__ == "Item"]
         if len({id(n.type) for n in items}) != 2:
             res.violation("C09/I4-members-first/special:same-named-classes/conflated", f"two same-named classes are not both nodes: {short([n.type for n in nodes], 200)}", dict(case, name="Holder"))
-    res.samples.append({"special": "nested classes, string/recursive aliases, wrappers, same-named classes in two modules"})
+    # a bare string naming different classes in two calling modules (first caller must not win)
+    cold.clear_all()
+    src_a = "import dataclasses\n@dataclasses.dataclass\nclass Thing:\n    x: int\ndef call1(f, *a, **k):\n    return f(*a, **k)\n"
+    src_b = "import dataclasses\n@dataclasses.dataclass\nclass Thing:\n    x: str\n    y: bytes = b''\ndef call1(f, *a, **k):\n    return f(*a, **k)\n"
+    ma = prelude.mkmod("tlg_c09_ta", src_a).__dict__
+    mb = prelude.mkmod("tlg_c09_tb", src_b).__dict__
+    oa = call(ma["call1"], graph.static_order, "Thing")
+    ob = call(mb["call1"], graph.static_order, "Thing")
+    res.evals += 2
+    good = oa.ok and ob.ok and oa.val and ob.val and oa.val[-1].type is ma["Thing"] and ob.val[-1].type is mb["Thing"]
+    res.outcomes.add(h64("two-modules", bool(good)))
+    if not good:
+        res.violation("C09/I9-input-forms/special:bare-name-from-two-modules/first-caller-wins",
+                      f"static_order('Thing') from module A -> root {short(oa.val[-1].type if oa.ok and oa.val else oa.exc, 60)}, from module B -> root {short(ob.val[-1].type if ob.ok and ob.val else ob.exc, 60)}",
+                      dict(case, name="two-modules"))
+    res.samples.append({"special": "nested classes, string/recursive aliases, wrappers, qualifier-labelled revisits, same-named classes in two modules"})
 
 
 def run_unit(unit, tier, res):
